@@ -11,6 +11,8 @@ LEVEL = "proof"
 # "1" = pinned commit, "0" = repaired code (hooks/c06_fix_d6.patch, hooks/c06_fix_d6t.patch, hooks/c06_fix_d9.patch).
 # Flipped by the coordinator when the fix commits land.
 PINNED = ("1", "1", "1")
+if os.environ.get("C06_PINNED"):        # only for testing the fix patches in a scratch worktree: C06_PINNED=0,0,0
+    PINNED = tuple(os.environ["C06_PINNED"].split(","))
 
 CLAIM = dict(cat="proof", design="§3 C06, §8 D6/D9",
    text="One Coq model (generic over the scalar type) of compute_ionization_state_hydrogen, the coupled H/He fixed-point loop "
@@ -132,6 +134,10 @@ def gen_H(rng, n):
                 x = math.nextafter(x, math.inf if d > 0 else 0.0)
             L.append((1.0, x, 1.0))
             L.append((a0, x * a0 * 1e6, 1e6))
+    # ladders: fixed (alphaH, nH), increasing jH over 19 decades of C = jH/(nH alphaH): monotonicity is checked on these
+    for (aH, nH) in ((1.0, 1.0), (4.18e-19, 1e4), (4.18e-19, 1e8), (2.0e-19, 1e12), (ALPHA_H(logu(rng, 500, 30000)), logu(rng, 1e4, 1e12))):
+        for k in range(96):
+            L.append((aH, 10.0 ** (-3 + 0.2 * k) * nH * aH, nH))
     while len(L) < n:
         m = rng.below(5)
         nH = logu(rng, 1e4, 1e12)
@@ -170,6 +176,24 @@ def gen_E(rng, n):
         r = 0.0 if rr == 0 else (logu(rng, 1e-8, 1.0) if rr == 1 else logu(rng, 0.05, 40.0))
         A = rng.choice([0.1, 0.1, 0.1, 0.05, 0.3, 1e-6, 0.5])
         L.append((ALPHA_H(T) * (0.5 + rng.uniform()), ALPHA_HE(T) * (0.5 + rng.uniform()), jH, jH * r, nH, A, T))
+    return L
+
+
+def gen_E_sweep(quick):
+    """EXPLORATION of `never aborts / stays in [0,1]': a regular grid over the stated domain (23 decades of flux from the
+    shortcut edge 1e-20, densities 1e4..1e12, temperatures 500..30000 K, helium abundance 0..0.6, jHe/jH 0..40)"""
+    Ts = [500.0, 8000.0, 30000.0] if quick else [500.0, 1000.0, 2000.0, 4000.0, 8000.0, 12000.0, 20000.0, 30000.0]
+    ns = [10.0 ** (4 + (2.0 if quick else 0.5) * k) for k in range(5 if quick else 17)]
+    As = [1e-6, 0.1, 0.3, 0.6] if quick else [1e-6, 0.01, 0.05, 0.1, 0.2, 0.3, 0.6]
+    rs = [0.0, 1e-3, 0.3, 10.0, 40.0] if quick else [0.0, 1e-6, 1e-3, 0.03, 0.3, 1.0, 3.0, 10.0, 20.0, 30.0, 40.0]
+    L = []
+    for T in Ts:
+        for n in ns:
+            for A in As:
+                for r in rs:
+                    for k in range(0, 47, 2 if quick else 1):
+                        jH = 1e-20 * 10.0 ** (0.5 * k)
+                        L.append((ALPHA_H(T), ALPHA_HE(T), jH, jH * r, n, A, T))
     return L
 
 
@@ -392,6 +416,9 @@ def run(ck):
     cases = []
     cases += [("H", c) for c in gen_H(rng.fork("H"), 6000 if q else 60000)]
     cases += [("E", c) for c in gen_E(rng.fork("E"), 4000 if q else 60000)]
+    sweep = gen_E_sweep(q)
+    sweep_lo = len(cases)
+    cases += [("E", c) for c in sweep]
     cases += [("M", c) for c in gen_M(rng.fork("M"), 1500 if q else 20000)]
     cases += [("C", c) for c in gen_C(rng.fork("C"), 3000 if q else 40000, xs)]
     cases += [("T", c) for c in gen_T(rng.fork("T"), 250 if q else 3000, xs, q)]
@@ -415,10 +442,42 @@ def run(ck):
         w = ORACLES[k](c, o)
         if w:
             fails.setdefault((k, w[0]), []).append((idx, w[1]))
+    # monotonicity of the hydrogen-only function on the ladders (same alphaH, nH; jH increasing)
+    lad = {}
+    for idx, ((k, c), o) in enumerate(zip(cases, out_i)):
+        if k == "H" and all(math.isfinite(v) and v > 0 for v in c):
+            lad.setdefault((c[0], c[2]), []).append((c[1], un(o.split()[1]), idx))
+    nmono = 0
+    for (aH, nH), pts in lad.items():
+        if len(pts) < 10:
+            continue
+        pts.sort()
+        for (j1, x1, i1), (j2, x2, i2) in zip(pts, pts[1:]):
+            nmono += 1
+            if j1 < j2 and x2 > x1 * (1.0 + 1e-9):
+                fails.setdefault(("H", "balance"), []).append((i2, "hydrogen-only neutral fraction is not monotone in the radiation field: alphaH=%r nH=%r: "
+                                                               "jH=%r -> %r but jH=%r -> %r (J/(n alpha) = %.3g)" % (aH, nH, j1, x1, j2, x2, j2 / (nH * aH))))
+    cov["h_only_monotone_pairs_checked"] = nmono
+    # exploration statistics of the H/He sweep (real code)
+    sw_out = out_i[sweep_lo:sweep_lo + len(sweep)]
+    exc = 0.0
+    nab = 0
+    for o in sw_out:
+        f = o.split()
+        if f[1] == "ABORT":
+            nab += 1
+        else:
+            for x in f[1:3]:
+                v = un(x)
+                if math.isfinite(v):
+                    exc = max(exc, v - 1.0, -v)
+    cov["exploration_hhe_sweep"] = {"points": len(sw_out), "aborts": nab, "largest_excursion_outside_[0,1]": exc,
+                                    "domain": "jH 1e-20..1e3 (47 half-decades), jHe/jH 0..40, nH 1e4..1e12, T 500..30000 K, AHe 1e-6..0.6"}
     # --- correspondence ----------------------------------------------------------------------------------
     mism = {}
     hist = {}
     sigs = set()
+    nit_hist = {}
     n_cmp = 0
     for idx, (k, c) in enumerate(cases):
         if idx >= len(out_i) or idx >= len(out_m):
@@ -433,6 +492,8 @@ def run(ck):
         for tok in t.split():
             if tok.startswith("niter="):
                 ni = tok[6:]
+        if k == "E" and ni:
+            nit_hist[int(ni)] = nit_hist.get(int(ni), 0) + 1
         hk = k + ":" + (br or "-")
         hist[hk] = hist.get(hk, 0) + 1
         if br and br not in ("dark", "vacuum", "early"):
@@ -445,6 +506,8 @@ def run(ck):
                          % (len(idxs), k, lines[i0], out_i[i0], out_m[i0], tags[i0]))
     # --- report violations ---------------------------------------------------------------------------------
     for (k, kind), lst in sorted(fails.items()):
+        if kind == "balance":      # show the most ordinary failing input: smallest J/(n alpha)
+            lst = sorted(lst, key=lambda e: cases[e[0]][1][1] / (cases[e[0]][1][2] * cases[e[0]][1][0]))
         idx, text = lst[0]
         key = {"kind": {"weak_field_nan": "weak_field_nan", "balance": "h_only_cancellation"}.get(kind, k + "_" + kind)}
         rp = {"line": lines[idx], "impl_out": out_i[idx], "failing_clause": text, "count_in_run": len(lst)}
@@ -465,6 +528,7 @@ def run(ck):
                    "kinds incl. no He-ionizing photons); non-trivial = not one of the constant-answer branches (dark/vacuum/early); distinct = distinct "
                    "(output bits, branch tag, iteration count)")
     cov["branch_histogram"] = dict(sorted(hist.items()))
+    cov["hhe_iteration_histogram"] = {str(k): v for k, v in sorted(nit_hist.items())}
     cov["cases"] = {k: sum(1 for kk, _ in cases if kk == k) for k in "HEMCT"}
     cov["case_mismatches"] = {k: len(v) for k, v in mism.items()}
     cov["oracle_failures_on_real_code"] = {"%s/%s" % kk: len(v) for kk, v in fails.items()}
